@@ -125,6 +125,10 @@ func (e *Engine) VerifyFunction(fn *ssa.Function) (res *FuncResult) {
 	} else {
 		for _, r := range fr.rets {
 			fr.checkErrProp(r, nil)
+			// vacuity guard for the zero-annotation sweep: every return must stay reachable in the encoding
+			if o := fx.oblige(r.st.clone(), "cover", "each-return-reachable", False, token.NoPos); o != nil {
+				o.Expect = "canary"
+			}
 		}
 	}
 	if ct != nil && !strings.Contains(ct.Name, "%") {
